@@ -330,6 +330,14 @@ class SymMap:
                 c2 = ctx()
                 c2.assume(z3.Implies(z3.And(j >= 0, j < n), z3.And(m._dom(k), idx(*m.kshape.leaves(k)) == j)))
                 return k
+            # the enumeration is a bijection [0,n) <-> dom (finite maps): both directions as quantified definitions
+            jq = z3.Int(c.name("enj"))
+            kj = kat(jq)
+            c.assume(z3.ForAll([jq], z3.Implies(z3.And(jq >= 0, jq < n), z3.And(m._dom(kj), idx(*m.kshape.leaves(kj)) == jq))))
+            ks = [z3.Const(c.name("enk%d" % i), s) for i, s in enumerate(m.kshape.sorts())]
+            kv = m.kshape.build(iter(ks))
+            ik = idx(*ks)
+            c.assume(z3.ForAll(ks, z3.Implies(m._dom(kv), z3.And(ik >= 0, ik < n, m.kshape.eq(kat(ik), kv)))))
             seq = SymSeq(n, at, self.kshape, self.name + ".keys")
             seq.idx = idx
             self._enum = seq
@@ -397,7 +405,9 @@ class BigSum:
         self.value = Sym(self.S(self.n))
 
     def t(self, j):
-        v = lift(self.term(Sym(lift(j))))
+        j = lift(j)
+        with ctx().quantified(z3.And(j >= 0, j < self.n)):      # the term is only ever used under 0 <= j < n
+            v = lift(self.term(Sym(j)))
         if v.sort() == INT and self.sort == REAL:
             v = z3.ToReal(v)
         return v
@@ -410,5 +420,6 @@ class BigSum:
         ctx().assume(self.step(j))
 
     def defn(self):
-        j = z3.Int(ctx().name("u"))
+        c = ctx()
+        j = z3.Int(c.name("u"))
         return z3.ForAll([j], self.step(j))
